@@ -14,7 +14,7 @@ LEVEL = 'exploration'
 RULE = ('inputs: Hypothesis text() over the full code-point range (surrogates, NUL, BOM); lexical soup with `/` '
         'and broken pieces; every kind of single-character corruption (delete / replace by one of 46 hot characters) '
         'and truncation of G1 programs and repository snippets; exhaustively all strings of length <= 3 (quick) / '
-        '<= 4 (thorough) over a hot alphabet; each through parse(text), parse(text, with_comments=True) and bare '
+        '<= 4 (thorough) over a hot alphabet; a coverage-guided atheris/libFuzzer campaign (seed corpus = repository snippets + empty input, JS token dictionary) with the same oracle inside the target; each through parse(text), parse(text, with_comments=True) and bare '
         'Lexer iteration. Oracle: outcome is a tree or ECMASyntaxError (subclass); nothing else escapes; no case '
         'exceeds the watchdog twice; the first quoted text of a syntax-error message occurs in the input at the '
         'quoted line:column. non-trivial = input containing a string/regex/comment opener or >= 2 tokens '
@@ -180,7 +180,10 @@ def plan(tier, seed):
     for k in range(ns):
         shards.append({'name': 'exh-%d' % k, 'kind': 'exh', 'lo': k * step, 'hi': min(total, (k + 1) * step),
                        'alpha': alpha})
-    return shards
+    # coverage-guided campaign (atheris/libFuzzer), one child interpreter per shard
+    nf, runs = (2, 2500) if quick else (16, 200000)
+    fuzz = [{'name': 'fuzz-%d' % k, 'kind': 'fuzz', 'runs': runs, 'fseed': seed * 100 + k + 1} for k in range(nf)]
+    return fuzz + shards  # the long-running children first, so they overlap with everything else
 
 
 EXH_ALPHA = ['\\', "'", '"', '/', '*', '(', ')', '{', '}', '[', ']', '0', '8', 'x', 'u', 'e', '.', '+', '-', '=',
@@ -252,6 +255,8 @@ def run_shard(shard):
                 return op, base[:i] + c + base[i + 1:]
             return op, base[:i] + c + base[i:]
         run_given(corrupt(), lambda m: one(m[1], 'corrupt_' + m[0]), shard['n'], shard['hseed'], acc)
+    elif kind == 'fuzz':
+        run_fuzz(acc, opens, shard)
     else:
         alpha = shard['alpha']
         for idx in range(shard['lo'], shard['hi']):
@@ -262,6 +267,55 @@ def run_shard(shard):
     return acc.result()
 
 
+def run_fuzz(acc, opens, shard):
+    import json
+    import os
+    import shutil
+    import subprocess
+    import sys
+    import tempfile
+    from harness.runner import VERIF
+    if not os.path.isdir(os.path.join(VERIF, '.deps', 'atheris')):
+        acc.label('atheris_not_installed_campaign_skipped')
+        return
+    work = tempfile.mkdtemp(prefix='calmjs-fuzz-')
+    try:
+        p = subprocess.run([sys.executable, os.path.join(VERIF, 'harness', 'fuzz_c12.py'), shard['root'], work,
+                            str(shard['runs']), str(shard['fseed'])], capture_output=True, text=True,
+                           timeout=6 * 3600)
+        stats_file = os.path.join(work, 'stats.json')
+        if not os.path.exists(stats_file):
+            raise RuntimeError('fuzz child produced no statistics (rc=%s): %s' % (p.returncode, p.stderr[-800:]))
+        with open(stats_file) as fd:
+            stats = json.load(fd)
+        for f in sorted(os.listdir(work)):
+            if f.startswith('finding-'):
+                with open(os.path.join(work, f)) as fd:
+                    d = json.load(fd)
+                # re-judge in this process through the ordinary oracle (this also writes the replay case)
+                check_text(acc, opens, d['text'], 'fuzz')
+        acc.evaluations += stats['executions']
+        acc.extra['fuzz_executions'] = acc.extra.get('fuzz_executions', 0) + stats['executions']
+        acc.extra['fuzz_corpus_files'] = acc.extra.get('fuzz_corpus_files', 0) + stats.get('corpus_files', 0)
+        for k, v in stats.get('outcomes', {}).items():
+            acc.label('fuzz_outcome_' + k, v)
+        # a few corpus entries the fuzzer kept (coverage-increasing inputs) as samples / non-trivial cases
+        cdir = os.path.join(work, 'corpus')
+        kept = [f for f in sorted(os.listdir(cdir)) if not f.startswith(('seed-', 'empty'))]
+        for f in kept:
+            with open(os.path.join(cdir, f), 'rb') as fd:
+                text = fd.read()[1:].decode('utf-8', 'replace')
+            if nontrivial(text):
+                acc.nontrivial.add(hash(('fuzz', text)))
+        for f in kept[:3]:
+            with open(os.path.join(cdir, f), 'rb') as fd:
+                acc.samples.append({'text': fd.read()[1:].decode('utf-8', 'replace'), 'origin': 'fuzz_corpus'})
+    finally:
+        shutil.rmtree(work, ignore_errors=True)
+
+
 def finish(m, cov, tier):
+    cov['coverage_guided'] = {'engine': 'atheris 3.1 / libFuzzer', 'executions': m['extra'].get('fuzz_executions', 0),
+                              'corpus_files_kept': m['extra'].get('fuzz_corpus_files', 0)}
     cov['exhaustive_part'] = 'all %d strings of length <= %d over the %d-character hot alphabet' % (
         m['extra'].get('exhaustive_strings', 0), 3 if tier == 'quick' else 4, len(EXH_ALPHA))
